@@ -38,7 +38,7 @@ def native_checksig():
     return req, nat
 
 
-def q_checksig(env, max_n=2, flags=(0x41, 0x01, 0xc3, 0x40), part="all", min_n=1, name=None):
+def q_checksig(env, max_n=2, flags=(0x41, 0x01, 0xc3, 0x40), part="all", min_n=1, ops=None, name=None):
     """flags: the sighash flag bytes the signature items may end in (plus every non-flag byte); None = all 256 byte values"""
     qr = QResult(name or f"checksig_{part}_n{max_n}")
     P = env.P
@@ -209,14 +209,14 @@ def q_checksig(env, max_n=2, flags=(0x41, 0x01, 0xc3, 0x40), part="all", min_n=1
             want = [bit_id(b) for b in c.lock[off:]]
             got = [bit_id(b) for b in deref(kw["script"]).f[0].f]
             if got != want:
-                report(f"{what}: the subscript handed to the sighash is not the locking script from the element after the last executed code separator (offset {cs} with {u} unlocking elements: expected {len(want)} elements, got {len(got)})", "before the executed code separator")
+                report(f"{what}: the subscript handed to the sighash is not the locking script from the element after the last executed code separator (offset {cs} with {u} unlocking elements: expected {len(want)} elements, got {len(got)})")
             if kw["n"].concrete() != idx:
                 report(f"{what}: the sighash is computed for input {kw['n'].concrete()} instead of the input being verified ({idx})")
             if sat(r.pc, kw["value"].t != c.value) != z3.unsat:
-                report(f"{what}: the value handed to the sighash is not the declared value of the spent output", "declared value")
+                report(f"{what}: the value handed to the sighash is not the declared value of the spent output")
 
     # ------------------------------------------------------------ OP_CHECKSIG / OP_CHECKSIGVERIFY
-    for op in (("OP_CHECKSIG", "OP_CHECKSIGVERIFY") if part in ("all", "single") else ()):
+    for op in ([o for o in ("OP_CHECKSIG", "OP_CHECKSIGVERIFY") if ops is None or o in ops] if part in ("all", "single") else ()):
         opbyte = P.enums["OpCodes"][op]
         for depth, siglen, pklen, has_lock, has_sats, idx, cs in ([(3, 9, 33, True, True, 0, c) for c in (0, 2, 3, 4)] + [(2, 9, 33, True, True, 0, 3), (1, 9, 33, True, True, 0, 0), (0, 9, 33, True, True, 0, 0),
                                                                                                                          (2, 0, 33, True, True, 0, 0), (2, 1, 33, True, True, 0, 0), (2, 9, 0, True, True, 0, 0), (2, 9, 65, True, True, 0, 0),
@@ -319,16 +319,17 @@ def q_checksig(env, max_n=2, flags=(0x41, 0x01, 0xc3, 0x40), part="all", min_n=1
             finish(qr, ex)
 
     # ------------------------------------------------------------ OP_CHECKMULTISIG / OP_CHECKMULTISIGVERIFY
-    for op in (("OP_CHECKMULTISIG", "OP_CHECKMULTISIGVERIFY") if part in ("all", "multi") else ()):
+    for op in ([o for o in ("OP_CHECKMULTISIG", "OP_CHECKMULTISIGVERIFY") if ops is None or o in ops] if part in ("all", "multi") else ()):
         opbyte = P.enums["OpCodes"][op]
         for n in range(min_n, max_n + 1):
-            for m in range(1, n + 1):
+          for m in range(1, n + 1):
+            for fl_assign in sorted({tuple([0x41] * m), tuple([0x01] * m), tuple(([0x41, 0x01] * m)[:m])}):
                 u, L, cs = m + 1, n + 3, 0
-                what = f"{op} {m}-of-{n}"
+                what = f"{op} {m}-of-{n} (flags {[hex(x) for x in fl_assign]})"
                 qr.cases += 1
                 ex = new_exec()
 
-                def setup(ex, m=m, n=n):
+                def setup(ex, m=m, n=n, fl_assign=fl_assign):
                     ctx = Ctx()
                     tx = context(ctx, u, L)
                     ctx.sigs = [[z3.BitVec(f"sig{i}_{j}", 8) for j in range(8)] + [z3.BitVec(f"flag{i}", 8)] for i in range(m)]
@@ -339,8 +340,8 @@ def q_checksig(env, max_n=2, flags=(0x41, 0x01, 0xc3, 0x40), part="all", min_n=1
                         # well-formed operands (the bound of this query): DER || standard flag, keys on the curve, preimage computable
                         ctx.assumptions.append(DER_VALID(seq_of(sg[:-1])))
                         ctx.assumptions.append(z3.Not(DER_VALID(seq_of(sg))))
-                        ctx.assumptions.append(z3.Or(*[sg[-1] == k for k in (0x41, 0x01)]))
-                        ctx.assumptions.append(PRE_OK(sg[-1]))
+                        ctx.assumptions.append(sg[-1] == fl_assign[ctx.sigs.index(sg)])
+                        ctx.assumptions.append(PRE_OK(z3.BitVecVal(fl_assign[ctx.sigs.index(sg)], 8)))
                     for pk in ctx.pks:
                         ctx.assumptions.append(z3.And(FORMAT_OK(seq_of(pk)), ON_CURVE(seq_of(pk)), z3.Or(KIND(seq_of(pk)) == 2, KIND(seq_of(pk)) == 3)))
                     items = ctx.below + [dummy] + ctx.sigs + [[z3.BitVecVal(m, 8)]] + ctx.pks + [[z3.BitVecVal(n, 8)]]
@@ -378,7 +379,7 @@ def q_checksig(env, max_n=2, flags=(0x41, 0x01, 0xc3, 0x40), part="all", min_n=1
 
                     def okp(i, j):
                         sg, pk = c.sigs[i], c.pks[j]
-                        z = REDUCE(z3.Concat(*SHA256(seq_of(SHA256(PRE(sg[-1]))))))
+                        z = REDUCE(z3.Concat(*SHA256(seq_of(SHA256(PRE(z3.BitVecVal(fl_assign[i], 8)))))))
                         return VERIFY(seq_of(pk), z, seq_of(sg[:-1]))
 
                     def match(i, j):
@@ -391,7 +392,7 @@ def q_checksig(env, max_n=2, flags=(0x41, 0x01, 0xc3, 0x40), part="all", min_n=1
                     # the byte-reversed acceptance is reported under OP_CHECKSIG; here verification means either digest order the code uses
                     def okp_code(i, j):
                         sg, pk = c.sigs[i], c.pks[j]
-                        d = SHA256(seq_of(SHA256(PRE(sg[-1]))))
+                        d = SHA256(seq_of(SHA256(PRE(z3.BitVecVal(fl_assign[i], 8)))))
                         return z3.Or(VERIFY(seq_of(pk), REDUCE(z3.Concat(*d)), seq_of(sg[:-1])), VERIFY(seq_of(pk), REDUCE(z3.Concat(*list(reversed(d)))), seq_of(sg[:-1])))
                     if sat(r.pc, acc, z3.Not(want)) != z3.unsat:
                         # does it also fail under the laxer (either digest order) reading?
